@@ -102,7 +102,7 @@ MathVal(t, b1, b2, b3, b4, b5) ==
     [] OTHER -> (b1 % 128) * 268435456 + (b2 % 128) * 2097152 + (b3 % 128) * 16384 + (b4 % 128) * 128 + (b5 % 128)
 \* @type: (Int, Int) => <<Int, Int>>;
 Pair(a, b) == <<a, b>>
-Two32 == 4294967296
+Two32 == 65536 * 65536            \* 4294967296 (TLC cannot read a literal this big)
 Byte(b) == b >= 0 /\ b <= 255
 Limb(x) == x >= 0 /\ x <= 65535
 =============================================================================
